@@ -305,6 +305,36 @@ def runtime_contract(rec, cls):
                 env[t_] = float(rng.integers(1, 4))
             yield ('integer', jsonable(env))
 
+    def outlier_cases():
+        # one observation 45 / 300 standard deviations away from the model output: the log-density is a finite number (about -1000 / -45000),
+        # the density itself underflows (IEEE range)
+        for z in (45.0, 300.0):
+            env = Env(instance(cfg, need_p=True)(rng))
+            nn = 4
+            env[n] = nn
+            env['M'] = rng.uniform(1.0, 2.0, nn)
+            env['Sens'] = rng.normal(size=(nn, int(env[p])))
+            env[TH[0]] = 0.05
+            env[TH[1]] = 0.02
+            thv_ = [env[t_] for t_ in th]
+            sd_ = float(cfg['sd'](env['M'][2], thv_)) if not cfg['log'] else thv_[0]
+            env['O'] = env['M'] * (1.0 + 0.01 * rng.normal(size=nn))
+            env['O'][2] = env['M'][2] + z * sd_ if not cfg['log'] else env['M'][2] * np.exp(z * sd_)
+            yield ('long', jsonable(env))
+
+    def either_sign_cases():
+        # model outputs of either sign: wherever the plain evaluation is finite, the returned sensitivities are its derivatives (central
+        # differences of compute_log_likelihood itself -- no statement about *what* the value is outside the documented support)
+        for _ in range(4):
+            env = Env(instance(cfg, need_p=True)(rng))
+            nn = int(env[n])
+            sgn = np.where(rng.uniform(size=nn) < 0.5, -1.0, 1.0)
+            sgn[0] = -1.0
+            env['M'] = sgn * rng.uniform(0.8, 2.5, nn)
+            env['O'] = env['M'] + 0.3 * rng.normal(size=nn)
+            env['Sens'] = rng.normal(size=(nn, int(env[p])))
+            yield ('either-sign', jsonable(env))
+
     def support_cases():
         for t_bad in range(cfg['nth']):
             for val in (0.0, -0.7):
@@ -357,6 +387,31 @@ def runtime_contract(rec, cls):
             ll = em.compute_log_likelihood(thv, env['M'], env['O'])
             pw = em.compute_pointwise_ll(thv, env['M'], env['O'])
             sc, gr = em.compute_sensitivities(thv, env['M'], env['Sens'], env['O'])
+        if kind == 'either-sign':
+            if not np.isfinite(ll):
+                return None                      # outside the documented support (e.g. a negative standard deviation): nothing is claimed
+            if not evalx.close(float(sc), float(ll), 1e-9, 1e-9) or not evalx.close(float(np.sum(pw)), float(ll), 1e-9, 1e-9):
+                return 'model outputs of either sign: value %r, score of compute_sensitivities %r, pointwise sum %r' % (float(ll), float(sc), float(np.sum(pw)))
+            m0 = np.array(env['M'], dtype=float)
+            h = 1e-6
+            dm = np.empty(len(m0))
+            for j_ in range(len(m0)):
+                mp, mm = m0.copy(), m0.copy()
+                mp[j_] += h
+                mm[j_] -= h
+                dm[j_] = (em.compute_log_likelihood(thv, mp, env['O']) - em.compute_log_likelihood(thv, mm, env['O'])) / (2 * h)
+            want_mech = dm @ np.asarray(env['Sens'], dtype=float)
+            got_mech = np.asarray(gr[:int(env[p])], dtype=float)
+            if not np.allclose(got_mech, want_mech, rtol=1e-4, atol=1e-5):
+                return 'model outputs of either sign (value finite: %r): sensitivities %s w.r.t. the mechanistic parameters, central differences of the value give %s' % (float(ll), got_mech.tolist(), want_mech.tolist())
+            for t_ in range(cfg['nth']):
+                tp, tm = list(thv), list(thv)
+                tp[t_] += h
+                tm[t_] -= h
+                fd = (em.compute_log_likelihood(tp, m0, env['O']) - em.compute_log_likelihood(tm, m0, env['O'])) / (2 * h)
+                if not evalx.close(float(gr[int(env[p]) + t_]), float(fd), 1e-4, 1e-5):
+                    return 'model outputs of either sign: sensitivity w.r.t. error parameter %d is %r, central difference of the value %r' % (t_, float(gr[int(env[p]) + t_]), float(fd))
+            return None
         if kind == 'outside':
             if not (ll == -np.inf and sc == -np.inf and np.all(np.asarray(pw) == -np.inf)):
                 return 'outside the support: value %r, pointwise %r, score %r (expected -inf)' % (ll, np.asarray(pw).tolist(), sc)
@@ -370,6 +425,8 @@ def runtime_contract(rec, cls):
             else:
                 sd_ = np.array([float(cfg['sd'](x_, thv)) for x_ in m_])
                 want = float(np.sum(-np.log(sd_) - 0.5 * np.log(2 * np.pi) - (o_ - m_) ** 2 / (2 * sd_ ** 2)))
+            if not np.all(np.isfinite(np.asarray(pw, dtype=float))):
+                return '%d observations: pointwise log-likelihoods %s are not all finite although every log-density is (total %r)' % (len(m_), np.asarray(pw, dtype=float).tolist()[:6], want)
             if not (evalx.close(float(ll), want, 1e-7, 1e-7) and evalx.close(float(sc), want, 1e-7, 1e-7) and evalx.close(float(np.sum(pw)), want, 1e-7, 1e-7)):
                 return '%d observations of magnitude %.0e: value %r / score %r / pointwise sum %r, the documented sum of log-densities is %r' % (len(m_), float(np.median(m_)), ll, sc, float(np.sum(pw)), want)
             return None
@@ -390,7 +447,7 @@ def runtime_contract(rec, cls):
             if not evalx.close(float(gr[int(env[p]) + t_]), w_, 1e-6, 1e-8):
                 return 'sensitivity w.r.t. error parameter %d is %r, expected %r' % (t_, float(gr[int(env[p]) + t_]), w_)
         return None
-    rec.native_check('%s/runtime-contract' % cls, funcs, list(formula_cases()) + list(integer_cases()) + list(long_cases()) + list(support_cases()), one,
+    rec.native_check('%s/runtime-contract' % cls, funcs, list(formula_cases()) + list(integer_cases()) + list(long_cases()) + list(outlier_cases()) + list(either_sign_cases()) + list(support_cases()), one,
                      'seeded instances inside the support (n in 1..5, p in 1..3, random values; passed in arrays that held other contents in an earlier evaluation of the same model instance) compared with the numerically evaluated '
                      'specification and its derivative; the same with integer-typed parameters, outputs, observations and sensitivities; vectors of 400 observations with outputs of magnitude 1e3 / 1e-3 / 1 (IEEE range); boundary instances of the support clause (each scale parameter 0 and negative; '
                      'log-normal: negative/zero outputs at first/last/all/middle positions); distinct by full input')
